@@ -26,7 +26,10 @@ type kind18 struct {
 func kinds18() []kind18 {
 	var out []kind18
 	for _, l := range []string{"UInt8", "Int8", "UInt64", "String", "Enum8('a'=1,'b'=2,'c'=-3)", "Enum8", "DateTime", "DateTime('UTC')", "DateTime64(3)", "DateTime64(6)",
-		"Array(String)", "Map(String, String)", "LowCardinality(String)", "FixedString(3)", "FixedString(8)", "Nullable(String)", "Array(Enum8('a'=1,'b'=2,'c'=-3))", "Array(DateTime64(3))", "Array(DateTime64(9))"} {
+		"Array(String)", "Map(String, String)", "LowCardinality(String)", "FixedString(3)", "FixedString(8)", "Nullable(String)", "Array(Enum8('a'=1,'b'=2,'c'=-3))", "Array(DateTime64(3))", "Array(DateTime64(9))",
+		// containers of inferable elements next to containers whose type strings those elements' own
+		// Infer tolerates (a numeric first parameter, no quoted parameter)
+		"Array(DateTime)", "Array(UInt32)", "Array(FixedString(8))", "Map(String, DateTime64(3))", "Map(String, FixedString(8))"} {
 		e, ok := regtab.ByLabel(l)
 		if !ok {
 			panic("C18: no registry entry " + l)
@@ -163,7 +166,7 @@ type target18 struct {
 
 // C18 — result blocks bind only to compatible targets; mismatches are errors.
 func C18(c *vk.Ctx) {
-	c.Rule("block schemas of 0..2 columns (thorough 0..3) over 24 column kinds (Decimal64 / Decimal128 and the server's spellings Decimal(18, 4) / Decimal(19, 4) of them, integers, String, name-based Enum8 with two different definitions and raw Enum8, DateTime with / without zone, DateTime64(3)/(6), Array(String), Array(Enum8), Array(DateTime64(3))/(9), Map(String,String), LowCardinality(String), FixedString(3)/(8), Nullable(String)) x rows {0, 2} x target lists {equal kinds, every permutation, one renamed, one blank name, one extra, one missing, each position swapped for every other kind, Auto, none}; plus ordered pairs of blocks (second schema = first with one kind swapped — unrelated kinds and every parameter-only sibling — or one renamed) decoded into the same typed or inferred targets. Oracle: a reference compatibility predicate written from the property text decides accept / reject; on accept every target, read back as values of the BLOCK's type, holds exactly its own column's values, reports the block's precision / enum definition as adopted, and blank names are filled; on reject an error, and no target holds another column's data. distinct_nontrivial = (schema, targets, rows) cases.")
+	c.Rule("block schemas of 0..2 columns (thorough 0..3) over 29 column kinds (Decimal64 / Decimal128 and the server's spellings Decimal(18, 4) / Decimal(19, 4) of them, integers, String, name-based Enum8 with two different definitions and raw Enum8, DateTime with / without zone, DateTime64(3)/(6), Array(String), Array(Enum8), Array(DateTime64(3))/(9), Array(DateTime), Array(UInt32), Array(FixedString(8)), Map(String,DateTime64(3)), Map(String,FixedString(8)), Map(String,String), LowCardinality(String), FixedString(3)/(8), Nullable(String)) x rows {0, 2} x target lists {equal kinds, every permutation, one renamed, one blank name, one extra, one missing, each position swapped for every other kind, Auto, none}; plus ordered pairs of blocks (second schema = first with one kind swapped — unrelated kinds and every parameter-only sibling — or one renamed) decoded into the same typed or inferred targets. Oracle: a reference compatibility predicate written from the property text decides accept / reject; on accept every target, read back as values of the BLOCK's type, holds exactly its own column's values, reports the block's precision / enum definition as adopted, and blank names are filled; on reject an error, and no target holds another column's data. distinct_nontrivial = (schema, targets, rows) cases.")
 	kinds := kinds18()
 	maxCols := 2
 	if !c.Quick() {
